@@ -4,7 +4,7 @@
 From Coq Require Import List NArith ZArith Arith Lia Bool.
 From Coq Require Import Init.Byte.
 From OKE Require Import Bytes Suite Generated Hkdf Voprf Messages Envelope TripleDH Opaque Api.
-From OKE Require Import Laws Codecs Honest Substituted Accept Bad Toy.
+From OKE Require Import Laws Codecs Honest Substituted Accept Bad KeySeparation WrongCredential Toy.
 Import ListNotations.
 
 Definition tape0 : bytes := map (fun i => n2b (N.of_nat (i * 37 + 11))) (seq 0 300).
@@ -97,3 +97,28 @@ Example toy_C03 :
   server_login_finish TOY st0 {| cf_mac := toy_hmac [x01; x02; x03; x04] [x05; x06; x07; x08] |} = Ok [x09; x0a; x0b; x0c] /\
   server_login_finish TOY st0 {| cf_mac := [x00; x00; x00; x00] |} = Err EInvalidLogin.
 Proof. split; vm_compute; reflexivity. Qed.
+
+(* C05 / C14 on the toy suite: the server evaluates the same request under ANOTHER credential identifier (same setup,
+   same record, same password): the server step succeeds and the client's final step fails *)
+Definition cred1 : bytes := [x75; x32].
+Definition r5c := the (d_slog, d_resp, [], ([], []))
+  (server_login_start TOY (private_key_ops (ke TOY)) (snd r4) setup0 (Some (server_registration_finish upload0)) (snd (fst r4)) cred1 (Some [x78]) ids0).
+Example toy_C05_other_credential_identifier_rejected :
+  server_login_start TOY (private_key_ops (ke TOY)) (snd r4) setup0 (Some (server_registration_finish upload0)) (snd (fst r4)) cred1 (Some [x78]) ids0
+    = Ok (fst (fst (fst r5c)), snd (fst (fst r5c)), snd (fst r5c), snd r5c) /\
+  client_login_finish TOY (fst (fst r4)) pw0 (snd (fst (fst r5c))) (Some [x78]) ids0 None = Err EInvalidLogin.
+Proof. split; vm_compute; reflexivity. Qed.
+
+(* ... as the theorem says, with every law (the free scalar action included) discharged for the toy suite: had the
+   client accepted, a collision would have been exhibited *)
+Example toy_C05_theorem_instance :
+  forall out, client_login_finish TOY (fst (fst r4)) pw0 (snd (fst (fst r5c))) (Some [x78]) ids0 None = Ok out ->
+              BadS TOY \/ BadOprfDerive TOY.
+Proof.
+  intros out Hacc.
+  destruct toy_premises_of_C01 as (HP & H0 & H1 & H2 & H3 & H4 & _ & _).
+  destruct toy_C05_other_credential_identifier_rejected as [H5 _].
+  refine (mismatched_login_never_accepted TOY toy_hash_laws toy_group_laws Z.eq_dec toy_action_free
+            _ _ _ _ _ _ _ _ _ _ _ _ _ _ _ _ _ _ _ _ _ _ _ _ _ _ HP HP H0 H1 H2 H3 _ H4 H5 Hacc).
+  right. vm_compute. discriminate.
+Qed.
